@@ -7,7 +7,7 @@ VARIABLE l
 Trace == ndJsonDeserialize("trace.ndjson")
 Ev == Trace[l]
 A(i) == Ev.a[i]
-Step(Act) == /\ l' = l + 1 /\ Act /\ last'.r = Ev.r /\ O' = Ev.o
+Step(Act) == /\ l' = l + 1 /\ Act /\ last'.r = Ev.r /\ ("o" \in DOMAIN Ev => O' = Ev.o)
 TReset == Ev.ev = "Reset" /\ l' = l + 1 /\ xm' = {} /\ xw' = 0 /\ ym' = {} /\ yw' = 0 /\ last' = R("Init", <<>>, <<>>)
 TDrain == Ev.ev = "Drain" /\ l' = l + 1 /\ Ev.d = Sorted(xm) /\ UNCHANGED vars
 TStep == \/ TReset
